@@ -4,8 +4,12 @@ package remoteclient
 
 import (
 	"context"
+	"sync"
+	"sync/atomic"
+	"time"
 
 	"github.com/tochemey/goakt/v4/internal/internalpb"
+	inet "github.com/tochemey/goakt/v4/internal/net"
 )
 
 // VerifCoalescer is an opaque handle on the per-destination coalescer of a Client
@@ -108,4 +112,40 @@ func VerifRaceGetCoalescer(cl Client, host string, port int, n int, hold func())
 		}
 	}
 	return len(seen), allInMap
+}
+
+// VerifRaceClose is a stress probe for "submit racing close": for the given duration it creates a
+// coalescer (transport: a dead port, every flush fails fast and goes to the error handler), lets
+// `goroutines` senders submit `per` messages each while close() runs concurrently, and counts the
+// messages whose submit returned nil but that were neither flushed (= handed to the error
+// handler here) nor rejected: they are still in the channel after the writer goroutine has exited.
+func VerifRaceClose(d time.Duration, goroutines, per int) (trials int, lost int) {
+	nc := inet.NewClient("127.0.0.1:1", inet.WithDialTimeout(50*time.Millisecond))
+	defer nc.Close()
+	start := time.Now()
+	for time.Since(start) < d {
+		trials++
+		var handled, accepted atomic.Int64
+		c := newCoalescer("127.0.0.1:1", nc, coalescingConfig{maxBatch: 64,
+			errHandler: func(_ string, m []*internalpb.RemoteMessage, _ error) { handled.Add(int64(len(m))) }})
+		var wg sync.WaitGroup
+		gate := make(chan struct{})
+		for g := 0; g < goroutines; g++ {
+			wg.Add(1)
+			go func() {
+				defer wg.Done()
+				<-gate
+				for i := 0; i < per; i++ {
+					if c.submit(context.Background(), &internalpb.RemoteMessage{}) == nil {
+						accepted.Add(1)
+					}
+				}
+			}()
+		}
+		close(gate)
+		c.close()
+		wg.Wait()
+		lost += int(accepted.Load() - handled.Load())
+	}
+	return trials, lost
 }
